@@ -187,6 +187,9 @@ impl Monitor for C05 {
                 return o;
             }
         }
+        if c.aux.as_deref() == Some("structured") {
+            obs.count("structured_cases");
+        }
         if c.pattern.chars().count() >= 2 {
             obs.nontrivial(c.key());
         }
@@ -214,7 +217,45 @@ impl Monitor for C05 {
             }
             emit(c);
         }
-        J::obj().with("random_cases_this_shard", J::u(n))
+        // well-formed patterns of the shapes the other monitors use (shortcut-bearing, line-anchored
+        // with groups, back-references, anchored alternatives) on the inputs that stress index
+        // arithmetic: proper prefixes of a matching string (shorter than the pattern's fixed
+        // offsets) and several matching lines in one input (state carried between matches)
+        let ns = w.share(80_000, 3_000_000);
+        let mut rng = w.rng("C05", 2);
+        let cfg = GenCfg::std(&['a', 'b', 'A', '1', ' ', 'a', 'b', '\u{10400}']);
+        let valid_flags = ["", "", "i", "m", "s", "x", "im", "ms", "ims", "ix"];
+        for k in 0..ns {
+            let mut ast = match k % 6 {
+                0 | 1 => gen_shortcut(&mut rng, &cfg),
+                2 => gen_line_shape(&mut rng, &['a', 'b']),
+                3 => super::refprops::gen_backref_shape(&mut rng),
+                4 => gen_anchor_giveback(&mut rng),
+                _ => gen_pattern(&mut rng, &cfg),
+            };
+            if rng.chance(1, 3) && !matches!(&ast, Node::Cat(v) if matches!(v.first(), Some(Node::Bol))) {
+                ast = Node::Cat(vec![Node::Bol, ast]).normalize();
+            }
+            if !ast.valid_backrefs() {
+                continue;
+            }
+            let fl = *rng.pick(&valid_flags);
+            let full = gen_input(&mut rng, &ast, &['a', 'b', '1', '\n'], 8);
+            let chars: Vec<char> = full.chars().collect();
+            let inp = match rng.below(3) {
+                0 if !chars.is_empty() => chars[..rng.below(chars.len())].iter().collect::<String>(),
+                1 => {
+                    let lines: Vec<String> = (0..2 + rng.below(2)).map(|_| gen_input(&mut rng, &ast, &['a', 'b', '1'], 5).replace('\n', "")).collect();
+                    lines.join("\n")
+                }
+                _ => full,
+            };
+            let mut c = Case::new(&ast, fl, &inp);
+            c.ast = None;
+            c.aux = Some("structured".to_string());
+            emit(c);
+        }
+        J::obj().with("random_cases_this_shard", J::u(n)).with("structured_cases_this_shard", J::u(ns))
     }
     fn corpus(&self) -> Vec<Case> {
         let mut v = raw(&[
@@ -247,6 +288,53 @@ pub struct C06;
 pub const C06_MAX_NODES: usize = 12;
 pub const C06_MAX_QDEPTH: usize = 2;
 pub const C06_MAX_INPUT: usize = 6;
+
+/// the largest number of zero-width iterations one repeat iterator may perform on an input of
+/// `len` characters (calibrated: the largest value observed on the unmodified engine is
+/// 2 * (len + 1) + 4, see DESIGN.md)
+pub fn c06_zero_width_cap(len: usize) -> u64 {
+    8 * (len as u64 + 2)
+}
+
+/// loops whose body is zero-width only conditionally (an anchor, a back-reference to an empty or
+/// unset group), offered more than once, with a continuation that fails where they succeed
+fn gen_c06_conditional(rng: &mut Rng) -> Node {
+    let rep = |body: Node, q: (usize, Option<usize>), greedy: bool| Node::Repeat { body: Box::new(body), min: q.0, max: q.1, greedy, spell: 0 };
+    let quants: [(usize, Option<usize>); 5] = [(0, None), (1, None), (2, None), (0, Some(30)), (1, Some(20))];
+    let with_ref = rng.chance(1, 2);
+    let z = |rng: &mut Rng| -> Node {
+        if with_ref {
+            Node::Backref(1)
+        } else {
+            match rng.below(4) {
+                0 | 1 => Node::Bol,
+                2 => Node::Eol,
+                _ => Node::NcGroup(Box::new(Node::Cat(vec![Node::Bol, Node::Bol]))),
+            }
+        }
+    };
+    let mut alts = vec![];
+    for _ in 0..2 + rng.below(2) {
+        alts.push(z(rng));
+    }
+    if rng.chance(3, 4) {
+        alts.insert(rng.below(alts.len() + 1), Node::Char(*rng.pick(&['a', 'b'])));
+    }
+    let body = Node::NcGroup(Box::new(Node::Alt(alts)));
+    let mut v = vec![];
+    if with_ref {
+        v.push(Node::Group(Box::new(match rng.below(3) {
+            0 => Node::Empty,
+            1 => rep(Node::Char('a'), (0, Some(1)), true),
+            _ => rep(Node::Char('b'), (0, None), true),
+        })));
+    }
+    v.push(rep(body, *rng.pick(&quants), rng.chance(3, 4)));
+    if rng.chance(3, 4) {
+        v.push(Node::Char(*rng.pick(&['c', 'b'])));
+    }
+    Node::Cat(v).normalize()
+}
 
 fn gen_c06(rng: &mut Rng) -> Node {
     let rep = |body: Node, q: (usize, Option<usize>), greedy: bool| Node::Repeat { body: Box::new(body), min: q.0, max: q.1, greedy, spell: 0 };
@@ -324,28 +412,84 @@ impl Monitor for C06 {
                 Fail::Panic { .. } => Outcome::Violated(vec![Finding::new(&format!("panic_{}", api), f.describe(), "the call returns")]),
             }
         };
-        let re = match engine::compile(&c.pattern, &c.flags, c.dialect) {
+        let s = &c.input;
+        // trace monitor on hook H4: no repeat iterator performs a long run of iterations that
+        // consume nothing. An iterator over a possibly-empty body is cut off by the engine's
+        // progress guard after a handful of results, each of which can re-extend by at most one
+        // empty iteration per remaining character, so the count stays linear in the input.
+        let zw_cap = if std::env::var("RXV_C06_CALIBRATE").is_ok() { u64::MAX } else { c06_zero_width_cap(s.chars().count()) };
+        // the hook unwinds as soon as one iterator exceeds the cap, so that a run that doubles with
+        // every character costs about as many steps as the cap, not 2^len
+        struct Disarm;
+        impl Drop for Disarm {
+            fn drop(&mut self) {
+                engine::set_zero_width_limit(0);
+            }
+        }
+        engine::set_zero_width_limit(if zw_cap == u64::MAX { 0 } else { zw_cap });
+        let _disarm = Disarm;
+        let mut zw_seen = 0u64;
+        let mut zw = |api: &str| -> Option<Outcome> {
+            let n = engine::last_zero_width();
+            zw_seen = zw_seen.max(n);
+            if n > zw_cap {
+                Some(Outcome::Violated(vec![Finding::new(&format!("zero_width_iteration_run_{}", api), format!("one repeat iterator performed {} iterations that consumed no input", n), format!("at most {} for an input of {} characters", zw_cap, s.chars().count()))]))
+            } else {
+                None
+            }
+        };
+        let r = engine::compile(&c.pattern, &c.flags, c.dialect);
+        if let Some(o) = zw("compile") {
+            return o;
+        }
+        let re = match r {
             Ok(Ok(r)) => r,
             Ok(Err(_)) => return Outcome::Inconclusive("rejected_by_compiler"),
             Err(f) => return term("compile", &f),
         };
-        let s = &c.input;
-        if let Err(f) = engine::is_match(&re, s) {
+        let r = engine::is_match(&re, s);
+        if let Some(o) = zw("is_match") {
+            return o;
+        }
+        if let Err(f) = r {
             return term("is_match", &f);
         }
         obs.max("steps_is_match", engine::last_steps());
-        if let Err(f) = engine::replace_all(&re, s, "[$0]") {
+        let r = engine::replace_all(&re, s, "[$0]");
+        if let Some(o) = zw("replace_all") {
+            return o;
+        }
+        if let Err(f) = r {
             return term("replace_all", &f);
         }
         obs.max("steps_replace_all", engine::last_steps());
-        if let Err(f) = engine::tokenize(&re, s) {
+        let r = engine::tokenize(&re, s);
+        if let Some(o) = zw("tokenize") {
+            return o;
+        }
+        if let Err(f) = r {
             return term("tokenize", &f);
         }
         obs.max("steps_tokenize", engine::last_steps());
-        if let Err(f) = engine::analyze(&re, s) {
+        let r = engine::analyze(&re, s);
+        if let Some(o) = zw("analyze") {
+            return o;
+        }
+        if let Err(f) = r {
             return term("analyze", &f);
         }
         obs.max("steps_analyze", engine::last_steps());
+        obs.max("zero_width_iterations_per_iterator_max", zw_seen);
+        if !ast.zero_width_loops().0 {
+            // outside the shape of the known finding (loop bodies that are zero-width in one way and consuming in another)
+            obs.max(&format!("zero_width_iterations_max_at_input_len_{:02}", s.chars().count()), zw_seen);
+        }
+        if zw_seen > 0 {
+            obs.count("zero_width_iterations_observed");
+        }
+        if s.chars().count() > C06_MAX_INPUT {
+            obs.count("longer_inputs_for_zero_width_runs");
+        }
         if in_bounds {
             obs.count("inside_bounds");
         }
@@ -398,6 +542,33 @@ impl Monitor for C06 {
             let inp: String = gen_input(&mut rng, &ast, &['a', 'b', 'c', '\n'], C06_MAX_INPUT).chars().take(C06_MAX_INPUT).collect();
             emit(Case::new(&ast, fl, &inp));
         }
+        // (d) conditionally zero-width loop bodies on longer inputs, for the zero-width run monitor
+        // (hook H4): a run that doubles with every character is far above the linear cap at 10-16
+        // characters while the call still completes
+        let nd = w.share(40_000, 800_000);
+        for _ in 0..nd {
+            let ast = if rng.chance(2, 3) { gen_c06_conditional(&mut rng) } else { gen_c06(&mut rng) };
+            if !ast.valid_backrefs() {
+                continue;
+            }
+            let fl = *rng.pick(&["", "m", "m", "s", "i"]);
+            let len = 10 + rng.below(7);
+            let unit: Vec<char> = gen_input(&mut rng, &ast, &['a', 'b', 'c', '\n'], 4).chars().collect();
+            let mut inp: Vec<char> = vec![];
+            if rng.chance(1, 3) {
+                inp.push('\n');
+            }
+            while inp.len() < len {
+                if unit.is_empty() || rng.chance(1, 4) {
+                    inp.push(*rng.pick(&['a', 'b', 'c', '\n']));
+                } else {
+                    inp.extend(unit.iter());
+                }
+            }
+            inp.truncate(len);
+            emit(Case::new(&ast, fl, &inp.into_iter().collect::<String>()));
+        }
+        desc.set("conditional_zero_width_patterns_this_shard", J::u(nd));
         // (c) literal patterns (flag q), incl. the empty literal, through all APIs
         if w.shard == 0 {
             for p in ["", "a", "(", " ", "a*", "^", "()"] {
